@@ -476,9 +476,8 @@ def _faults_child(wl_json: dict, gold: list, ci: int, ii: int, others: list, pla
                 _clear_caches()
                 n_ran, _res, exc, where = steps.run_with_interrupt(fn, j + 1)
                 st.inc("fault_interrupt_during_build")
-                if not isinstance(exc, steps.SimInterrupt):
-                    if n_ran >= j + 1:
-                        return done(phase, j, "interrupt", "interrupt-swallowed" if exc is None else f"interrupt-replaced:{type(exc).__name__}")
+                if not isinstance(exc, steps.SimInterrupt) and n_ran >= j + 1:
+                    st.inc("probe_interrupt_swallowed_or_replaced")
                 sig = _after_check(wl, ci, ii, others, cache, full=True, in_thread=False)
                 if sig is not None:
                     return done(phase, j, "interrupt", "after-build-interrupt:" + sig)
@@ -500,11 +499,10 @@ def _faults_child(wl_json: dict, gold: list, ci: int, ii: int, others: list, pla
                 got = None
             except BaseException as e:  # noqa: BLE001
                 got = e
-            if i < W:
-                if got is None:
-                    return done("write", i, kind, "write-fault-swallowed")
-                if got is not exc:
-                    return done("write", i, kind, f"write-fault-replaced:{type(got).__name__}")
+            # (what the failing call itself raises is not C19's statement - C07 judges that;
+            # here it is only counted)
+            if i < W and not streams.same_or_chained(got, exc):
+                st.inc("probe_write_fault_swallowed_or_replaced")
             full = (n_ % 8 == 0) or n_ == len(idxs) - 1
             sig = _after_check(wl, ci, ii, others, cache, full=full, in_thread=(n_ % 16 == 5))
             if sig is not None:
@@ -522,11 +520,8 @@ def _faults_child(wl_json: dict, gold: list, ci: int, ii: int, others: list, pla
                 got = None
             except BaseException as e:  # noqa: BLE001
                 got = e
-            if i < R:
-                if got is None:
-                    return done("read", i, kind, "read-fault-swallowed")
-                if got is not exc:
-                    return done("read", i, kind, f"read-fault-replaced:{type(got).__name__}")
+            if i < R and not streams.same_or_chained(got, exc):
+                st.inc("probe_read_fault_swallowed_or_replaced")
             full = (n_ % 8 == 0) or n_ == len(idxs) - 1
             sig = _after_check(wl, ci, ii, others, cache, full=full, in_thread=(n_ % 16 == 5))
             if sig is not None:
@@ -541,7 +536,7 @@ def _faults_child(wl_json: dict, gold: list, ci: int, ii: int, others: list, pla
             n_ran, _res, exc, where = steps.run_with_interrupt(fn, j + 1)
             st.inc("fault_interrupt_" + ("encode" if phase == "int-w" else "decode"))
             if not isinstance(exc, steps.SimInterrupt) and n_ran >= j + 1:
-                return done(phase, j, "interrupt", "interrupt-swallowed" if exc is None else f"interrupt-replaced:{type(exc).__name__}")
+                st.inc("probe_interrupt_swallowed_or_replaced")
             if where and "write_tagged_field" in str(where):
                 st.inc("probe_interrupt_inside_tagged_scratch")
             full = (n_ % 8 == 0) or n_ == len(js) - 1
